@@ -6,6 +6,7 @@ spec forms:
   ["fn",name] callable (builtin / lambda / plain function)     ["g"] generator object
   ["l",[..]] ["st",[..]] ["t",[..]] ["d",[[k,v]..]] ["dd",[[k,v]..]]
   ["tw",kind,id]  tripwire object (C03; see tripwires.py)
+  ["fk",n]        a callable proxy whose __code__/__wrapped__ lookups raise RuntimeError the first n times (transient lookup fault)
   ["hb",name]     an object of a hidden builtin class (dict_keys, list_iterator, ...)
   ["sh",n,spec]   the session's n-th shared object (built once from spec, then the same object every time)
 """
@@ -71,6 +72,10 @@ def build(spec, classes, tw=None, shared=None):
         return d
     if t == "hb":
         return HIDDEN_BUILTINS[spec[1]]()
+    if t == "fk":
+        from . import rt
+
+        return rt.FlakyCallable(spec[1])
     if t == "tw":
         return tw(spec)
     raise ValueError("bad value spec %r" % (spec,))
@@ -87,6 +92,8 @@ def gen_atom(rng, kn, classes):
     if kn.get("tw_p") and rng.random() < kn["tw_p"]:
         kn["_tw"][0] += 1
         return ["tw", rng.choice(kn["tw_kinds"]), kn["_tw"][0]]
+    if kn.get("flaky_p") and rng.random() < kn["flaky_p"]:
+        return ["fk", rng.choice([1, 1, 2, 4])]
     if kn.get("hidden_builtins") and rng.random() < 0.06:
         return ["hb", rng.choice(["dict_keys", "dict_values", "list_iterator", "range_iterator"])]
     r = rng.random()
@@ -185,7 +192,7 @@ def gen_big_container(rng):
     return ["st", [["i", i] for i in range(n)]]
 
 
-BURST_FAMILIES = ["tuples", "atoms", "dicts", "lists", "mixed", "dictlists"]
+BURST_FAMILIES = ["tuples", "atoms", "dicts", "lists", "mixed", "dictlists", "empties"]
 
 
 def gen_burst_value(rng, family, classes, kn):
@@ -203,6 +210,10 @@ def gen_burst_value(rng, family, classes, kn):
         n = rng.choice([1, 1, 2])
         keys = rng.sample(range(ks), min(n, ks))
         return ["d", [[["s", "k%d" % k], gen_atom(rng, kn, classes)] for k in keys]]
+    if family == "empties":
+        # empty and non-empty containers of several kinds at one position ([], [1], set(), {1}, {}, {1: 2}, (), (1,))
+        return [["l", []], ["l", [["i", 1]]], ["st", []], ["st", [["i", 1]]], ["d", []], ["d", [[["i", 1], ["i", 2]]]], ["t", []], ["t", [["i", 1]]],
+                ["dd", []], ["l", [["s", "x"]]]][rng.randrange(10)]
     if family == "dictlists":
         # lists of small string-key dicts over a tiny key space with few value types: across the calls of a burst the same key is
         # required in one inferred TypedDict, optional in another, with different value types (merges of merges)
